@@ -2,6 +2,7 @@ package main
 
 import (
 	"fmt"
+	"go/constant"
 	"go/types"
 	"os"
 	"path/filepath"
@@ -27,6 +28,7 @@ type Engine struct {
 	// globals that are never stored to outside package init, with their constant initialiser (if simple)
 	constGlobal map[*ssa.Global]*ssa.Const
 	errGlobal   map[*ssa.Global]bool // initialised once with errors.New / fmt.Errorf: distinct non-nil
+	bytesGlobal map[*ssa.Global]string // never-reassigned []byte global initialised from a constant string
 	storedGlob  map[*ssa.Global]int
 	loadErrs    []string
 }
@@ -113,6 +115,7 @@ func (e *Engine) addFunc(f *ssa.Function) {
 func (e *Engine) scanGlobals() {
 	e.constGlobal = map[*ssa.Global]*ssa.Const{}
 	e.errGlobal = map[*ssa.Global]bool{}
+	e.bytesGlobal = map[*ssa.Global]string{}
 	e.storedGlob = map[*ssa.Global]int{}
 	initVal := map[*ssa.Global]ssa.Value{}
 	addrTaken := map[*ssa.Global]bool{}
@@ -169,6 +172,12 @@ func (e *Engine) scanGlobals() {
 			if cal := x.Call.StaticCallee(); cal != nil {
 				if s := cal.String(); s == "errors.New" || s == "fmt.Errorf" {
 					e.errGlobal[g] = true
+				}
+			}
+		case *ssa.Convert:
+			if c, ok := x.X.(*ssa.Const); ok && c.Value != nil && c.Value.Kind() == constant.String {
+				if sl, ok := x.Type().Underlying().(*types.Slice); ok && types.Identical(sl.Elem().Underlying(), types.Typ[types.Uint8]) {
+					e.bytesGlobal[g] = constant.StringVal(c.Value)
 				}
 			}
 		case *ssa.MakeInterface:
